@@ -1260,31 +1260,31 @@ func isParamOfFamily(v ssa.Value) bool {
 // ring slots, a pixel that is skipped keeps the difference of two frames ago (and with it the influence of whatever the
 // skip test looked at, e.g. sub-threshold values).
 func checkPixelStoredOnEveryIteration(w *World, r *Report, e *termEnv, fn *ssa.Function, a pixAccess, T string, rule string) {
-			// the difference is stored for EVERY interior pixel: the diff frames are re-used ring slots, a pixel that is
-			// skipped keeps the difference of two frames ago
-			var dataGuards []string
-			for _, g := range e.guardsOf(a.Instr.Block()) {
-				gs := g.String()
-				if isRangeLoopGuard(g) || g.If.Parent() != fn {
-					continue
-				}
-				if strings.Contains(gs, "cptvframe.Frame.Pix") || strings.Contains(gs, T) {
-					dataGuards = append(dataGuards, gs)
-				}
+	// the difference is stored for EVERY interior pixel: the diff frames are re-used ring slots, a pixel that is
+	// skipped keeps the difference of two frames ago
+	var dataGuards []string
+	for _, g := range e.guardsOf(a.Instr.Block()) {
+		gs := g.String()
+		if isRangeLoopGuard(g) || g.If.Parent() != fn {
+			continue
+		}
+		if strings.Contains(gs, "cptvframe.Frame.Pix") || strings.Contains(gs, T) {
+			dataGuards = append(dataGuards, gs)
+		}
+	}
+	// ... and no path through the loop body comes round to the next pixel without passing the store (a && b skips
+	// have no single dominating guard)
+	skip := ""
+	if ph, ok := a.Col.(*ssa.Phi); ok {
+		h := ph.Block()
+		for _, body := range h.Succs {
+			if !h.Dominates(body) || !reaches(body, h) {
+				continue // the exit edge
 			}
-			// ... and no path through the loop body comes round to the next pixel without passing the store (a && b skips
-			// have no single dominating guard)
-			skip := ""
-			if ph, ok := a.Col.(*ssa.Phi); ok {
-				h := ph.Block()
-				for _, body := range h.Succs {
-					if !h.Dominates(body) || !reaches(body, h) {
-						continue // the exit edge
-					}
-					if by, at := canBypass(body, a.Instr.Block(), h); by && at == h {
-						skip = "the loop continues with the next pixel without storing (via block " + fmt.Sprint(at.Index) + ")"
-					}
-				}
+			if by, at := canBypass(body, a.Instr.Block(), h); by && at == h {
+				skip = "the loop continues with the next pixel without storing (via block " + fmt.Sprint(at.Index) + ")"
 			}
-			r.Check(len(dataGuards) == 0 && skip == "", rule, fn.Name()+": the difference is stored for every interior pixel (no data-dependent skip)", w.InstrPos(a.Instr), strings.Join(dataGuards, " ; ")+skip)
+		}
+	}
+	r.Check(len(dataGuards) == 0 && skip == "", rule, fn.Name()+": the difference is stored for every interior pixel (no data-dependent skip)", w.InstrPos(a.Instr), strings.Join(dataGuards, " ; ")+skip)
 }
